@@ -448,6 +448,10 @@ class CallMixin:
                 return Val(deps=deps)
             if first.extra is not None and first.extra[0] == "tuple":
                 return join_all(first.extra[1]).add_deps(deps)
+            if recv is None and first.refs and not first.locs and all(self.obj(r).cls == "dict" for r in first.refs):
+                # min(d) / max(d) / next(iter(d)) over a dict yield one of its keys
+                ks = [self.obj(r).keys for r in first.refs if self.obj(r).keys is not None]
+                return (join_all(ks) if ks else Val()).add_deps(keys_deps(deps)).add_tags("key")
             v = self.read_elem(first, args[0] if (recv is not None and args) else None)
             if recv is not None and len(args) > 1:
                 v = join(v, args[1])
